@@ -132,6 +132,29 @@ class Interp:
             return None
         return self.prog.type(node_or_key)
 
+    def overridden_const(self, name, st, fr):
+        """Value of a constant under const_override: the override itself, or a constant whose initialiser mentions one."""
+        if not self.const_override or not name:
+            return None
+        if name in self.const_override:
+            return C(self.const_override[name])
+        cache = self.__dict__.setdefault('_ovcache', {})
+        if name in cache:
+            return cache[name]
+        g = self.prog.globals.get(name)
+        res = None
+        if g is not None and g.get('const') and g.get('init') is not None:
+            from .facts import walk as _walk
+            deps = [x for x in _walk(g['init']) if x.get('k') in ('DeclRefExpr', 'MemberExpr') and (x.get('glob') or x.get('mk') == 'Var')]
+            names = [(x.get('d') or '')[2:] if x.get('k') == 'DeclRefExpr' else x.get('q') for x in deps]
+            if any(self.overridden_const(nm, st, fr) is not None for nm in names if nm and nm != name):
+                cache[name] = None
+                r = self.ev(g['init'], st, fr)
+                if len(r) == 1 and r[0][1][0] == 'c':
+                    res = r[0][1]
+        cache[name] = res
+        return res
+
     def ref_fields(self):
         rf = getattr(self, '_ref_fields', None)
         if rf is None:
@@ -188,8 +211,10 @@ class Interp:
             return v
         # constant global tables come straight from the facts
         if isinstance(obj, str) and obj.startswith('G:'):
-            if self.const_override and obj[2:] in self.const_override and not path:
-                return C(self.const_override[obj[2:]])
+            if self.const_override and not path:
+                ov = self.overridden_const(obj[2:], st, self.frames[-1] if self.frames else None)
+                if ov is not None:
+                    return ov
             g = self.prog.globals.get(obj[2:])
             if g is not None and g.get('const') and 'value' in g:
                 return self._table_load(g['value'], path, st)
@@ -403,12 +428,15 @@ class Interp:
             if not self.const_override or k in ('IntegerLiteral', 'CharacterLiteral', 'CXXBoolLiteralExpr', 'UnaryExprOrTypeTraitExpr'):
                 return [(st, C(n['cv']))]
             if k == 'DeclRefExpr':
-                if n.get('glob') and n['d'][2:] in self.const_override:
-                    return [(st, C(self.const_override[n['d'][2:]]))]
+                if n.get('glob'):
+                    ov = self.overridden_const(n['d'][2:], st, fr)
+                    if ov is not None:
+                        return [(st, ov)]
                 return [(st, C(n['cv']))]
             if k == 'MemberExpr' and n.get('mk') == 'Var':
-                if n.get('q') in self.const_override:
-                    return [(st, C(self.const_override[n['q']]))]
+                ov = self.overridden_const(n.get('q'), st, fr)
+                if ov is not None:
+                    return [(st, ov)]
                 return [(st, C(n['cv']))]
             # a folded constant may depend on an overridden global: evaluate structurally
         elif 'cvs' in n:
